@@ -555,10 +555,14 @@ pub trait Object {
             if k.ends_with(']') && k.contains('[') {
                 let mut parts = k.split('[');
                 let k = parts.next().expect("missing key");
-                let i: usize = parts
-                    .next()
-                    .and_then(|i| i.strip_suffix("]"))
-                    .and_then(|i| i.parse::<usize>().ok())?;
+                // exactly one `[digits]` group: `a[1][2]` and `a[+1]` are not other spellings of `a[1]`
+                let i: usize = match (parts.next(), parts.next()) {
+                    (Some(i), None) => i
+                        .strip_suffix("]")
+                        .filter(|i| i.bytes().all(|b| b.is_ascii_digit()))
+                        .and_then(|i| i.parse::<usize>().ok())?,
+                    _ => return None,
+                };
                 match v {
                     Some(Value::Object(value)) => match value.get(k) {
                         Some(Value::Array(a)) => v = Some(a.iter().nth(i)?),
@@ -601,13 +605,17 @@ pub trait Object: Send + Sync {
             if k.ends_with(']') && k.contains('[') {
                 let mut parts = k.split('[');
                 let k = parts.next().expect("missing key");
-                let i: usize = match parts
-                    .next()
-                    .and_then(|i| i.strip_suffix("]"))
-                    .and_then(|i| i.parse::<usize>().ok())
-                {
-                    Some(i) => i,
-                    None => return None,
+                // exactly one `[digits]` group: `a[1][2]` and `a[+1]` are not other spellings of `a[1]`
+                let i: usize = match (parts.next(), parts.next()) {
+                    (Some(i), None) => match i
+                        .strip_suffix("]")
+                        .filter(|i| i.bytes().all(|b| b.is_ascii_digit()))
+                        .and_then(|i| i.parse::<usize>().ok())
+                    {
+                        Some(i) => i,
+                        None => return None,
+                    },
+                    _ => return None,
                 };
                 match v {
                     Some(Value::Object(value)) => match value.get(k) {
